@@ -24,9 +24,12 @@ pub mod k0_run {
             relation r1(i64) = in1;
             relation r2(i64, i64, i64) = in2;
             r2(v1, v1, v1) <-- if let Some(v0) = Some(1), r0(v1, v0);
-            r2(v0, v2, v3) <-- r0(v0, v1), r0(v1, v2), r0(v2, v3);
-            r2(v0, v2, v3) <-- r0(v0, v1), r0(v1, v2), r0(v2, v3);
-            r2(v0, v1, v0) <-- r1(v0) if ((*v0) <= 3), r2(3, v1, v0);
+            r2(v0, v8, v9) <-- if let Some(v9) = Some(0), r0(v0, v1), r0(v1, v9) let v8 = ((*v0) + 1);
+            r2(v0, v1, v0) <-- r0(v0, v1), r0(v1, v1);
+            r2(1, v2, v0) <-- if let Some(v0) = Some(3), r0(v1, 2) if ((*v1) != 3) let v2 = ((*v1) + 1), if (v2 <= 6), if (v0 <= 6);
+            r2(3, v1, v1) <-- r0(v0, v1), r1(((*v1) + 0)) if ((*v0) <= 2), r1(v1);
+            r1(v2) <-- if let Some(v0) = Some(2), r2((v0 + 0), v1, v0), for v2 in 0..2, r0(((*v1) + 0), v3);
+            r2(v0, v0, v0) <-- r1(v0);
          };
          self.out0 = res.r0.iter().cloned().collect();
          self.out1 = res.r1.iter().cloned().collect();
@@ -60,7 +63,8 @@ pub mod k0_incfirst {
    use crate::common::*;
    ascent_source! { k0_incfirst_src:
       r2(v1, v1, v1) <-- if let Some(v0) = Some(1), r0(v1, v0);
-      r2(v0, v2, v3) <-- r0(v0, v1), r0(v1, v2), r0(v2, v3);
+      r2(v0, v8, v9) <-- if let Some(v9) = Some(0), r0(v0, v1), r0(v1, v9) let v8 = ((*v0) + 1);
+      r2(v0, v1, v0) <-- r0(v0, v1), r0(v1, v1);
    }
    ascent! {
       pub struct Prog;
@@ -68,8 +72,10 @@ pub mod k0_incfirst {
       relation r1(i64);
       relation r2(i64, i64, i64);
       include_source!(k0_incfirst_src);
-      r2(v0, v2, v3) <-- r0(v0, v1), r0(v1, v2), r0(v2, v3);
-      r2(v0, v1, v0) <-- r1(v0) if ((*v0) <= 3), r2(3, v1, v0);
+      r2(1, v2, v0) <-- if let Some(v0) = Some(3), r0(v1, 2) if ((*v1) != 3) let v2 = ((*v1) + 1), if (v2 <= 6), if (v0 <= 6);
+      r2(3, v1, v1) <-- r0(v0, v1), r1(((*v1) + 0)) if ((*v0) <= 2), r1(v1);
+      r1(v2) <-- if let Some(v0) = Some(2), r2((v0 + 0), v1, v0), for v2 in 0..2, r0(((*v1) + 0), v3);
+      r2(v0, v0, v0) <-- r1(v0);
    }
    pub struct Inst { p: Prog, pool: Option<ascent::rayon::ThreadPool> }
    pub fn make(pool: Option<usize>) -> Box<dyn Driver> {
@@ -112,8 +118,8 @@ pub mod k1_grt {
       r2(0, 3) <-- r1(2, 1);
       r3(v3, v2) <-- if let Some(v0) = None::<i64>, r2(v1, v0), if (v0 < 5), r1(v2, v3);
       r2(v0, v2) <-- r2(v0, v1), r2(v1, v2), r3(v2, v3);
-      r1(v0, v1) <-- let v9 = 2, r2(v0, v1), r1(v1, v9);
-      r3(v0, v0) <-- if let Some(v0) = Some(0), r3(v0, (v0 + 1));
+      r1(v0, v1) <-- r2(v0, v1), r1(((*v0) + 1), v2);
+      r3(v0, v0) <-- if let Some(v0) = Some(0), r3(v0, (v0 + 1)), if (v0 <= 6);
       r1(v0, v0) <-- r0(v0, 0, 1);
       r1(v3, v1) <-- for v0 in [0], r1(v1, v0), r3(v0, v2), r1(v3, v4), for v5 in [4, 2, 1];
    }
@@ -158,8 +164,8 @@ pub mod k1_init {
       r2(0, 3) <-- r1(2, 1);
       r3(v3, v2) <-- if let Some(v0) = None::<i64>, r2(v1, v0), if (v0 < 5), r1(v2, v3);
       r2(v0, v2) <-- r2(v0, v1), r2(v1, v2), r3(v2, v3);
-      r1(v0, v1) <-- let v9 = 2, r2(v0, v1), r1(v1, v9);
-      r3(v0, v0) <-- if let Some(v0) = Some(0), r3(v0, (v0 + 1));
+      r1(v0, v1) <-- r2(v0, v1), r1(((*v0) + 1), v2);
+      r3(v0, v0) <-- if let Some(v0) = Some(0), r3(v0, (v0 + 1)), if (v0 <= 6);
       r1(v0, v0) <-- r0(v0, 0, 1);
       r1(v3, v1) <-- for v0 in [0], r1(v1, v0), r3(v0, v2), r1(v3, v4), for v5 in [4, 2, 1];
    }
@@ -202,7 +208,7 @@ pub mod k2_redecl {
       relation r3(i64, i64);
       relation r4(i64, i64) = vec![(9,9,)];
       relation r4(i64, i64);
-      r2(v0, v1) <-- let v9 = 2, r4(v0, v1), r1(v1, v9);
+      r2(v0, v1) <-- r4(v0, v1), r1(v1, v1);
       r3(3, 0);
       r1(v0, v0) <-- r4(v0, 3), if let Some(v1) = None::<i64>, r4(v1, v2);
       r3(v2, v1) <-- if let Some(v0) = None::<i64>, r2(v1, 2), if ((*v1) != 4), r3(v2, v1) if ((*v2) != 2);
@@ -265,11 +271,9 @@ pub mod k3_runpar {
             relation r3(i64) = in3.into_iter().collect();
             relation r4(i64, i64, i64) = in4.into_iter().collect();
             relation r5(i64, i64) = in5.into_iter().collect();
-            r3(v0) <-- r1(v0, v1), r2(v1, v2), r5(v2, v3);
-            r5(v1, v0) <-- r0(v0, 3) if ((*v0) != 2), r0(v0, v1) if ((*v1) <= 4);
-            r2(v0, v0) <-- r1(3, 0), r4(v0, v1, v2), if let Some(v3) = Some((*v0)), r4(v4, v1, v5);
-            r5((v0 + 1), v0) <-- if let Some(v0) = None::<i64>, if (v0 < 6);
-            r2(v1, ((*v0) + 1)) <-- r1(v0, 2), r0(v1, v0), r1(v2, v3), if ((*v0) < 6);
+            r5(v0, v8) <-- if let Some(v9) = Some(3), r1(v0, v1), r2(v1, v9) let v8 = ((*v0) + 1);
+            r3(1) <-- r1(v0, 3) if ((*v0) != 2), r0(v0, v1) if ((*v1) <= 4), r0(v2, ((*v1) + 0));
+            r5(v3, v3) <-- r5(v0, v1) if ((*v1) < 6) let v2 = ((*v0) + 1), r3(v3) if (v2 <= 4);
          };
          self.out0 = res.r0.iter().cloned().collect();
          self.out1 = res.r1.iter().cloned().collect();
@@ -308,8 +312,7 @@ pub mod k3_incmiddle {
    use ascent::lattice::{Dual, set::Set};
    use crate::common::*;
    ascent_source! { k3_incmiddle_src:
-      r3(v0) <-- r1(v0, v1), r2(v1, v2), r5(v2, v3);
-      r5(v1, v0) <-- r0(v0, 3) if ((*v0) != 2), r0(v0, v1) if ((*v1) <= 4);
+      r5(v0, v8) <-- if let Some(v9) = Some(3), r1(v0, v1), r2(v1, v9) let v8 = ((*v0) + 1);
    }
    ascent! {
       pub struct Prog;
@@ -319,10 +322,9 @@ pub mod k3_incmiddle {
       relation r3(i64);
       relation r4(i64, i64, i64);
       relation r5(i64, i64);
-      r2(v0, v0) <-- r1(3, 0), r4(v0, v1, v2), if let Some(v3) = Some((*v0)), r4(v4, v1, v5);
+      r3(1) <-- r1(v0, 3) if ((*v0) != 2), r0(v0, v1) if ((*v1) <= 4), r0(v2, ((*v1) + 0));
       include_source!(k3_incmiddle_src);
-      r5((v0 + 1), v0) <-- if let Some(v0) = None::<i64>, if (v0 < 6);
-      r2(v1, ((*v0) + 1)) <-- r1(v0, 2), r0(v1, v0), r1(v2, v3), if ((*v0) < 6);
+      r5(v3, v3) <-- r5(v0, v1) if ((*v1) < 6) let v2 = ((*v0) + 1), r3(v3) if (v2 <= 4);
    }
    pub struct Inst { p: Prog, pool: Option<ascent::rayon::ThreadPool> }
    pub fn make(pool: Option<usize>) -> Box<dyn Driver> {
@@ -368,10 +370,10 @@ pub mod k4_both {
       relation r4(i64);
       relation r5(i64, i64, i64);
       r2(3, 1, 1) <-- r0(0);
-      r3(v2, v1, v2) <-- if let Some(v0) = Some(2), r0(v1), if let Some(v2) = Some((*v1));
+      r3(v2, v1, v2) <-- if let Some(v0) = Some(2), r0(v1), if let Some(v2) = Some((*v1)), if (v2 <= 6);
       r4(v0) <-- r2(3, v0, 1), r3(v1, v2, v3);
-      r5(v0, v1, v9) <-- for v9 in 0..4, r1(v0, v1), r1(v9, v1);
-      r3(v0, v1, v9) <-- for v9 in 0..2, r1(v0, v1), r1(v9, v1);
+      r5(v0, v2, v3) <-- r1(v0, v1), r1(v1, v2), r1(v2, v3);
+      r3(v0, v2, v3) <-- r1(v0, v1), r1(v1, v2), r1(v2, v3);
       r5(0, ((*v0) + 1), v0) <-- r3(0, 3, v0), if ((*v0) < 6);
    }
    pub struct Inst { p: Prog, pool: Option<ascent::rayon::ThreadPool> }
@@ -415,7 +417,7 @@ pub mod k5 {
       r1(v0, v0) <-- r0(v0);
       r1(((*v1) + 1), v1) <-- r1(v0, 1), r1(v1, v0), if ((*v1) < 6);
       r2(v0) <-- if let Some(v9) = Some(0), r1(v0, v1), r1(v1, v9) let v8 = ((*v0) + 1);
-      r1(v0, v0) <-- if let Some(v0) = Some(0);
+      r1(v0, v0) <-- if let Some(v0) = Some(0), if (v0 <= 6);
       r2(v1) <-- r0(v0), for v1 in 0..1;
       r2(0);
       r1(v0, v1) <-- r2(v0), r0(v0), for v1 in [4, 4];
@@ -459,7 +461,7 @@ pub mod k5_gen {
       r1(v0, v0) <-- r0(v0);
       r1(((*v1) + 1), v1) <-- r1(v0, 1), r1(v1, v0), if ((*v1) < 6);
       r2(v0) <-- if let Some(v9) = Some(0), r1(v0, v1), r1(v1, v9) let v8 = ((*v0) + 1);
-      r1(v0, v0) <-- if let Some(v0) = Some(0);
+      r1(v0, v0) <-- if let Some(v0) = Some(0), if (v0 <= 6);
       r2(v1) <-- r0(v0), for v1 in 0..1;
       r2(0);
       r1(v0, v1) <-- r2(v0), r0(v0), for v1 in [4, 4];
@@ -502,13 +504,16 @@ pub mod k6_mrt {
       relation r2(i64, i64);
       relation r3(i64, i64);
       relation r4(i64, i64);
-      r1(v0, v1) <-- r2(v0, v1) if ((*v0) < 2), r1(v1, v2) if ((*v2) != (*v1));
-      r2(v0, v2) <-- r1(v0, v1), r1(v1, v2), r2(v2, v3);
-      r2(v0, v1) <-- r1(v0, v1);
-      r2(v2, v1) <-- r1(v0, v1) if ((*v0) <= 2) let v2 = ((*v0) + 1);
-      r2(v0, (v0 + 1)) <-- if let Some(v0) = Some(0), r2((v0 + 1), v0), if (v0 < 6);
-      r3(v1, 0) <-- r1(v0, v1), agg () = not() in r0(_);
-      r4(v0, v21) <-- r0(v0), agg v21 = sum(v20) in r3((*v0), v20);
+      relation r5(i64);
+      relation r6(i64);
+      r1(v0, v1) <-- r2(v0, v1), r1(((*v0) + 1), v2);
+      r1(v0, v1) <-- r1(v0, v1), r1(v1, v1);
+      r1(v0, v0) <-- r0(v0) if ((*v0) < 5);
+      r2(v2, v0) <-- if let Some(v0) = Some(1), r2((v0 + 1), (v0 + 1)) if (v0 <= 5), r1(v1, v2), if (v0 <= 6);
+      r3(v0, v21) <-- r0(v0), agg v21 = min(v20) in r1((*v0), v20);
+      r4(v0, v21) <-- r2(v0, v1), r0(v0), r0(v32), agg v21 = max(v20) in r3((*v32), v20);
+      r5(v1) <-- r1(v0, v1), r1(v1, v0), r0(v1), agg v21 = sum(v20) in r1((*v1), v20);
+      r6(v0) <-- r0(v0), r2(v31, v31), agg () = not() in r3((*v31), (*v0));
    }
    pub struct Inst { p: Prog, pool: Option<ascent::rayon::ThreadPool> }
    pub fn make(pool: Option<usize>) -> Box<dyn Driver> {
@@ -524,6 +529,8 @@ pub mod k6_mrt {
          2 => { let v: Vec<(i64,i64,)> = parse_rows(rows)?; if append { self.p.r2.extend(v) } else { self.p.r2 = v } },
          3 => { let v: Vec<(i64,i64,)> = parse_rows(rows)?; if append { self.p.r3.extend(v) } else { self.p.r3 = v } },
          4 => { let v: Vec<(i64,i64,)> = parse_rows(rows)?; if append { self.p.r4.extend(v) } else { self.p.r4 = v } },
+         5 => { let v: Vec<(i64,)> = parse_rows(rows)?; if append { self.p.r5.extend(v) } else { self.p.r5 = v } },
+         6 => { let v: Vec<(i64,)> = parse_rows(rows)?; if append { self.p.r6.extend(v) } else { self.p.r6 = v } },
             _ => return None,
          }
          Some(())
@@ -531,7 +538,7 @@ pub mod k6_mrt {
       fn run(&mut self) { match &self.pool { Some(pl) => { let p = &mut self.p; pl.install(|| p.run()) }, None => self.p.run() } }
       fn run_here(&mut self) { self.p.run() }
       fn run_timeout(&mut self, k: usize) -> Option<bool> { let _ = k; None }
-      fn dump(&self) -> String { vec![dump_rel(0, self.p.r0.iter().map(Row::render).collect()), dump_rel(1, self.p.r1.iter().map(Row::render).collect()), dump_rel(2, self.p.r2.iter().map(Row::render).collect()), dump_rel(3, self.p.r3.iter().map(Row::render).collect()), dump_rel(4, self.p.r4.iter().map(Row::render).collect())].join(" | ") }
+      fn dump(&self) -> String { vec![dump_rel(0, self.p.r0.iter().map(Row::render).collect()), dump_rel(1, self.p.r1.iter().map(Row::render).collect()), dump_rel(2, self.p.r2.iter().map(Row::render).collect()), dump_rel(3, self.p.r3.iter().map(Row::render).collect()), dump_rel(4, self.p.r4.iter().map(Row::render).collect()), dump_rel(5, self.p.r5.iter().map(Row::render).collect()), dump_rel(6, self.p.r6.iter().map(Row::render).collect())].join(" | ") }
       fn iters(&self) -> String { format!("iters {}", self.p.scc_iters.iter().map(|x| x.to_string()).collect::<Vec<_>>().join(" ")) }
    }
 }
@@ -543,9 +550,10 @@ pub mod k6_inclast {
    use ascent::lattice::{Dual, set::Set};
    use crate::common::*;
    ascent_source! { k6_inclast_src:
-      r1(v0, v1) <-- r2(v0, v1) if ((*v0) < 2), r1(v1, v2) if ((*v2) != (*v1));
-      r2(v0, v2) <-- r1(v0, v1), r1(v1, v2), r2(v2, v3);
-      r2(v0, v1) <-- r1(v0, v1);
+      r1(v0, v1) <-- r2(v0, v1), r1(((*v0) + 1), v2);
+      r1(v0, v1) <-- r1(v0, v1), r1(v1, v1);
+      r1(v0, v0) <-- r0(v0) if ((*v0) < 5);
+      r2(v2, v0) <-- if let Some(v0) = Some(1), r2((v0 + 1), (v0 + 1)) if (v0 <= 5), r1(v1, v2), if (v0 <= 6);
    }
    ascent! {
       pub struct Prog;
@@ -554,10 +562,12 @@ pub mod k6_inclast {
       relation r2(i64, i64);
       relation r3(i64, i64);
       relation r4(i64, i64);
-      r2(v2, v1) <-- r1(v0, v1) if ((*v0) <= 2) let v2 = ((*v0) + 1);
-      r2(v0, (v0 + 1)) <-- if let Some(v0) = Some(0), r2((v0 + 1), v0), if (v0 < 6);
-      r3(v1, 0) <-- r1(v0, v1), agg () = not() in r0(_);
-      r4(v0, v21) <-- r0(v0), agg v21 = sum(v20) in r3((*v0), v20);
+      relation r5(i64);
+      relation r6(i64);
+      r3(v0, v21) <-- r0(v0), agg v21 = min(v20) in r1((*v0), v20);
+      r4(v0, v21) <-- r2(v0, v1), r0(v0), r0(v32), agg v21 = max(v20) in r3((*v32), v20);
+      r5(v1) <-- r1(v0, v1), r1(v1, v0), r0(v1), agg v21 = sum(v20) in r1((*v1), v20);
+      r6(v0) <-- r0(v0), r2(v31, v31), agg () = not() in r3((*v31), (*v0));
       include_source!(k6_inclast_src);
    }
    pub struct Inst { p: Prog, pool: Option<ascent::rayon::ThreadPool> }
@@ -574,6 +584,8 @@ pub mod k6_inclast {
          2 => { let v: Vec<(i64,i64,)> = parse_rows(rows)?; if append { self.p.r2.extend(v) } else { self.p.r2 = v } },
          3 => { let v: Vec<(i64,i64,)> = parse_rows(rows)?; if append { self.p.r3.extend(v) } else { self.p.r3 = v } },
          4 => { let v: Vec<(i64,i64,)> = parse_rows(rows)?; if append { self.p.r4.extend(v) } else { self.p.r4 = v } },
+         5 => { let v: Vec<(i64,)> = parse_rows(rows)?; if append { self.p.r5.extend(v) } else { self.p.r5 = v } },
+         6 => { let v: Vec<(i64,)> = parse_rows(rows)?; if append { self.p.r6.extend(v) } else { self.p.r6 = v } },
             _ => return None,
          }
          Some(())
@@ -581,7 +593,7 @@ pub mod k6_inclast {
       fn run(&mut self) { match &self.pool { Some(pl) => { let p = &mut self.p; pl.install(|| p.run()) }, None => self.p.run() } }
       fn run_here(&mut self) { self.p.run() }
       fn run_timeout(&mut self, k: usize) -> Option<bool> { let _ = k; None }
-      fn dump(&self) -> String { vec![dump_rel(0, self.p.r0.iter().map(Row::render).collect()), dump_rel(1, self.p.r1.iter().map(Row::render).collect()), dump_rel(2, self.p.r2.iter().map(Row::render).collect()), dump_rel(3, self.p.r3.iter().map(Row::render).collect()), dump_rel(4, self.p.r4.iter().map(Row::render).collect())].join(" | ") }
+      fn dump(&self) -> String { vec![dump_rel(0, self.p.r0.iter().map(Row::render).collect()), dump_rel(1, self.p.r1.iter().map(Row::render).collect()), dump_rel(2, self.p.r2.iter().map(Row::render).collect()), dump_rel(3, self.p.r3.iter().map(Row::render).collect()), dump_rel(4, self.p.r4.iter().map(Row::render).collect()), dump_rel(5, self.p.r5.iter().map(Row::render).collect()), dump_rel(6, self.p.r6.iter().map(Row::render).collect())].join(" | ") }
       fn iters(&self) -> String { format!("iters {}", self.p.scc_iters.iter().map(|x| x.to_string()).collect::<Vec<_>>().join(" ")) }
    }
 }
@@ -601,15 +613,17 @@ pub mod k7_par {
       relation r4(i64, i64, i64);
       relation r5(i64);
       relation r6(i64);
+      relation r7(i64);
       r3(1, 3) <-- r1(2);
-      r3(v0, v1) <-- r3(1, 2), if let Some(v0) = Some(1), r3(v0, v1);
-      r2(v0) <-- r3(v0, v1) if ((*v0) < 3), r3(v1, v2) if ((*v2) != (*v1));
-      r4(v0, 0, v0) <-- let v0 = 4, r2((v0 + 1)) if (v0 < 3);
-      r2(v0) <-- r0(v0);
-      r3(v0, 3) <-- for v0 in 0..4, r3(v0, v1), r2(2) if ((*v1) <= 3), r0(3);
-      r3(v0, v0) <-- r0(v0), r1(v1);
-      r5(v32) <-- r0(v0), r3(v0, v0), r3(v31, v32), agg v21 = min(v20) in r3(_, v20);
+      r3(v0, v1) <-- r3(1, 2), if let Some(v0) = Some(1), r3(v0, v1), if (v0 <= 6);
+      r4(v0, v1, v9) <-- let v9 = 1, r3(v0, v1), r3(v1, v9);
+      r2(v1) <-- let v0 = 4, r2((v0 + 1)) if (v0 < 3), r2(v1) if (v0 <= 5);
+      r2(1) <-- r4(v0, v1, v2), r1(v3);
+      r2(v1) <-- if let Some(v0) = Some(1), r0(v1), for v2 in 2..4, r0(v3) if (v0 < 2) let v4 = ((*v3) + 1);
+      r3(1, (v1 + 1)) <-- r2(v0) if ((*v0) < 6) let v1 = ((*v0) + 1), if (v1 < 6);
+      r5(v0) <-- r3(v0, v1), agg v21 = max(v20) in r3(v20, _);
       r6(v0) <-- r0(v0), agg () = not() in r3((*v0), (*v0));
+      r7(v0) <-- r3(v0, v1), agg v21 = min(v20) in r0(v20);
    }
    pub struct Inst { p: Prog, pool: Option<ascent::rayon::ThreadPool> }
    pub fn make(pool: Option<usize>) -> Box<dyn Driver> {
@@ -627,6 +641,7 @@ pub mod k7_par {
          4 => { let v: Vec<(i64,i64,i64,)> = parse_rows(rows)?; if !append { self.p.r4 = Default::default(); } for x in v { self.p.r4.push(x); } },
          5 => { let v: Vec<(i64,)> = parse_rows(rows)?; if !append { self.p.r5 = Default::default(); } for x in v { self.p.r5.push(x); } },
          6 => { let v: Vec<(i64,)> = parse_rows(rows)?; if !append { self.p.r6 = Default::default(); } for x in v { self.p.r6.push(x); } },
+         7 => { let v: Vec<(i64,)> = parse_rows(rows)?; if !append { self.p.r7 = Default::default(); } for x in v { self.p.r7.push(x); } },
             _ => return None,
          }
          Some(())
@@ -634,7 +649,7 @@ pub mod k7_par {
       fn run(&mut self) { match &self.pool { Some(pl) => { let p = &mut self.p; pl.install(|| p.run()) }, None => self.p.run() } }
       fn run_here(&mut self) { self.p.run() }
       fn run_timeout(&mut self, k: usize) -> Option<bool> { let _ = k; None }
-      fn dump(&self) -> String { vec![dump_rel(0, self.p.r0.iter().map(|x| x.render()).collect()), dump_rel(1, self.p.r1.iter().map(|x| x.render()).collect()), dump_rel(2, self.p.r2.iter().map(|x| x.render()).collect()), dump_rel(3, self.p.r3.iter().map(|x| x.render()).collect()), dump_rel(4, self.p.r4.iter().map(|x| x.render()).collect()), dump_rel(5, self.p.r5.iter().map(|x| x.render()).collect()), dump_rel(6, self.p.r6.iter().map(|x| x.render()).collect())].join(" | ") }
+      fn dump(&self) -> String { vec![dump_rel(0, self.p.r0.iter().map(|x| x.render()).collect()), dump_rel(1, self.p.r1.iter().map(|x| x.render()).collect()), dump_rel(2, self.p.r2.iter().map(|x| x.render()).collect()), dump_rel(3, self.p.r3.iter().map(|x| x.render()).collect()), dump_rel(4, self.p.r4.iter().map(|x| x.render()).collect()), dump_rel(5, self.p.r5.iter().map(|x| x.render()).collect()), dump_rel(6, self.p.r6.iter().map(|x| x.render()).collect()), dump_rel(7, self.p.r7.iter().map(|x| x.render()).collect())].join(" | ") }
       fn iters(&self) -> String { format!("iters {}", self.p.scc_iters.iter().map(|x| x.to_string()).collect::<Vec<_>>().join(" ")) }
    }
 }
